@@ -10,7 +10,7 @@ Oracle (independent of the Lean model): own readers parse the real output back
   on exact Fractions.
 """
 from fractions import Fraction as F
-import math, re
+import json, math, re, struct
 from lib.framework import Property
 from .util import *
 
@@ -32,6 +32,19 @@ UNITS = [
     [['kelvin', 1]],
 ]
 
+# (own unit, requested unit, requested-per-own as an exact fraction); None = no `unit=` argument
+CONVERSIONS = [
+    ([['metre', 1]], None, F(1)), ([['metre', 1]], [['metre', 1]], F(1)),
+    ([['metre', 1]], [['cm', 1]], F(100)), ([['metre', 1]], [['kilometre', 1]], F(1, 1000)), ([['metre', 1]], [['dm', 1]], F(10)),
+    ([['metre', 1], ['second', -1]], [['cm', 1], ['second', -1]], F(100)),
+    ([['metre', 1], ['second', -1]], [['kilometre', 1], ['hour', -1]], F(36, 10)),
+    ([['kg', 1]], [['gram', 1]], F(1000)), ([['gram', 1], ['cm', -3]], [['kg', 1], ['metre', -3]], F(1000)),
+    ([['molar', 1]], [['mol', 1], ['metre', -3]], F(1000)), ([['second', 1]], [['hour', 1]], F(1, 3600)),
+    ([['molar', -1], ['second', -1]], None, F(1)), ([['joule', 1], ['mol', -1]], [['kilojoule', 1], ['mol', -1]], F(1, 1000)),
+]
+
+CONV_SCALE = {json.dumps([own, to]): sc for own, to, sc in CONVERSIONS if to is not None}
+
 RXNS = [{'reac': {'H+': 1, 'OH-': 1}, 'prod': {'H2O': 1}}, {'reac': {'H2O': 2}, 'prod': {'H2': 2, 'O2': 1}},
         {'reac': {'NH3': 1, 'H2O': 1}, 'prod': {'NH4+': 1, 'OH-': 1}}]
 
@@ -43,6 +56,10 @@ SPECIAL = [1, 5, 9.5, 9.9995, 9.9996, 99999.5, 0.00012345, 2.5, 0.5, 1e5, 123456
 def fx(h):
     """case floats are stored as hex text (exact, JSON-safe)"""
     return float.fromhex(h)
+
+
+def bits(x):
+    return struct.unpack('Q', struct.pack('d', float(x)))[0]
 
 
 def ratio(x):
@@ -196,8 +213,29 @@ def check_number_text(fmt, text, x, p, suffix):
     return None
 
 
-def check_uncert_text(fmt, text, x, xe, p, suffix, with_layout=True):
-    """the property for value(uncertainty) notation; x, xe floats; p: digits of the uncertainty"""
+SLACK = F(1, 2 ** 50)       # 4 ulp of a double, relative: pow (<= 1 ulp) + product (1/2 ulp) + float(int)*pow before '%f' (<= 2 ulp)
+SLACK_UNIT = F(1, 2 ** 48)  # when the value is first converted to another unit by `quantities` (a few more roundings)
+NEAR = F(1, 2 ** 40)        # relative distance to a power of ten inside which float log10 may land on either side
+
+
+def decade_candidates(q):
+    """floor(log10 |q|) as float `log10` may see it: the exact decade, plus the neighbour when q is within NEAR of the boundary"""
+    q = abs(q)
+    e = ilog10(q)
+    out = [e]
+    if pow10(e + 1) - q <= NEAR * q:
+        out.append(e + 1)
+    if q - pow10(e) <= NEAR * q and q != pow10(e):
+        out.append(e - 1)
+    return out
+
+
+def check_uncert_text(fmt, text, x, xe, p, suffix, with_layout=True, slack=SLACK):
+    """The property for value(uncertainty) notation, stated so that it is TRUE OF THE FLOAT CODE ON ALL INPUTS (near-ties included):
+    with q = (decade of |xe|) - p + 1 the printed value v and uncertainty u satisfy
+        |v - x|  <= 10^q/2 + 2*slack*|x|,     v  within slack*|x|  of a multiple of 10^q,
+        |u - xe| <= 10^q/2 + 2*slack*|xe|,    u  within slack*|xe| of a multiple of 10^q,
+    slack = 2^-50 (relative; float evaluation of x*10**k, round, '%f').  x, xe: exact Fractions or floats."""
     X, XE = F(x), F(xe)
     try:
         sig, e, rest = read_sci(fmt, text)
@@ -213,28 +251,44 @@ def check_uncert_text(fmt, text, x, xe, p, suffix, with_layout=True):
     E = e if e is not None else 0
     val = nom * pow10(E)
     uval = unc * pow10(E - dec)
-    q = ilog10(abs(XE)) - p + 1                     # the uncertainty's last kept digit
-    if abs(val - X) > pow10(q) / 2 or (val / pow10(q)).denominator != 1:
-        return '%r: value %s is not %r rounded at 10^%d' % (text, float(val), x, q)
-    if abs(uval - XE) > pow10(q) / 2 or (uval / pow10(q)).denominator != 1:
-        return '%r: uncertainty %s is not %r rounded to %d digits' % (text, float(uval), xe, p)
-    if with_layout:
-        # shorter of the two layouts (exponent = decade of x as in the code; plain wins ties)
-        xexp = ilog10(abs(X))
-        n_int, u_int = int(val / pow10(q)), int(uval / pow10(q))
+
+    def off_grid(v, q):
+        r = v / pow10(q)
+        return abs(r - round(r)) * pow10(q)
+
+    why = None
+    for xe_exp in decade_candidates(XE):
+        q = xe_exp - p + 1                          # the uncertainty's last kept digit
+        sx, se = slack * abs(X), slack * abs(XE)
+        if abs(val - X) > pow10(q) / 2 + 2 * sx or off_grid(val, q) > sx:
+            why = why or '%r: value %s is not %r rounded at 10^%d (float slack %.3g)' % (text, float(val), float(X), q, float(sx))
+            continue
+        if abs(uval - XE) > pow10(q) / 2 + 2 * se or off_grid(uval, q) > se:
+            why = why or '%r: uncertainty %s is not %r rounded to %d digits' % (text, float(uval), float(XE), p)
+            continue
+        if not with_layout:
+            return None
+        n_int, u_int = round(val / pow10(q)), round(uval / pow10(q))
 
         def fixed(n, w):
             s = str(abs(n)).rjust(w + 1, '0')
             s = s if w == 0 else s[:-w] + '.' + s[-w:]
             return ('-' if n < 0 else '') + s
-        l1 = len(fixed(n_int, xexp - q)) + len('(%d)e%d' % (u_int, xexp))
-        l2 = len(fixed(n_int * 10 ** max(q, 0), max(0, -q))) + len('(%d)' % (u_int * 10 ** max(q, 0)))
         plain = POW['plain'].match(text) is None if fmt == 'plain' else e is None
-        if plain and l2 > l1:
-            return '%r: plain layout (%d chars) chosen although the exponent layout has %d' % (text, l2, l1)
-        if not plain and l2 < l1:      # on a tie either is "the shorter" (the code prefers plain; tied by the correspondence)
-            return '%r: exponent layout (%d chars) chosen although the plain layout has %d' % (text, l1, l2)
-    return None
+        lay = None
+        for xexp in decade_candidates(X):
+            if xexp - q < 0:
+                continue
+            l1 = len(fixed(n_int, xexp - q)) + len('(%d)e%d' % (u_int, xexp))
+            l2 = len(fixed(n_int * 10 ** max(q, 0), max(0, -q))) + len('(%d)' % (u_int * 10 ** max(q, 0)))
+            if plain and l2 > l1:
+                lay = lay or '%r: plain layout (%d chars) chosen although the exponent layout has %d' % (text, l2, l1)
+            elif not plain and l2 < l1:   # on a tie either is "the shorter" (the code prefers plain; tied by the correspondence)
+                lay = lay or '%r: exponent layout (%d chars) chosen although the plain layout has %d' % (text, l1, l2)
+            else:
+                return None
+        why = why or lay
+    return why
 
 
 # ----------------------------------------------------------------------------------------------------------
@@ -245,21 +299,46 @@ class C20(Property):
              "uncertainty's last kept digit in the shorter layout; roman numerals denote their integer; a reaction printed with "
              'its parameter shows magnitude and unit')
     props_module = 'ChemModel.Props.C20'
-    build_modules = ('ChemModel.Model.NumFmt', 'ChemModel.Basic.Proto')
+    build_modules = ('ChemModel.Model.NumFmt', 'ChemModel.Model.NumFmtFloat', 'ChemModel.Basic.Proto')
     driver = 'ChemModel/Driver/C20.lean'
     n_quick, n_thorough = 3000, 60000
     float_tol = 0.0
     rule = ('floats: random bit patterns, k-digit decimals x 10^(-300..300), carry / significand-1 / tie specials x 10^k, exact powers of '
-            'ten, both signs; precisions 0..17 (mostly 1..10); 12 compound units; uncertainties 1e-8..0.5 relative with 1..6 digits; '
+            'ten, both signs; precisions 0..17 (mostly 1..10); 12 compound units; uncertainties 1e-8..0.5 relative with 1..6 digits incl. decimal '
+            'near-ties (k5 one place below the kept digit), values hugging powers of ten, uncertainties rounding up to a power of ten, nominal '
+            'powers of ten; uncertainty passed explicitly or carried by a quantities.UncertainQuantity, with/without unit= of another scale (13 '
+            'conversions) in all three renderers; '
             'roman 0..5000 and large; reactions with quantity/float/int/str/None parameters on the four printers. '
             'A case is non-trivial when it is a distinct JSON value.')
     assumptions = (
         'CPython %.Ng is the exact round-half-even specification of Model/NumFmt.lean (validated by the fmt_g correspondence on every run)',
-        'float log10 / x*10**k / round inside _float_str_w_uncert are not modelled: inputs within 1e-9 (relative) of a power of ten, '
-        'with round() arguments within max(1e-9, q*1e-14) of a tie, or needing more than 13 digits are not generated',
-        'unit texts (latex_of_unit, unicode_of_unit, html_of_unit, dimensionality printers) and the reaction text without parameter are taken '
-        'from the real call and passed to the model as opaque strings',
+        'theorems about the uncertainty notation are about EXACT arithmetic; the float code differs on decimal near-ties (2.675 +- 0.01 -> '
+        '2.68(1), model 2.67(1)).  The float behaviour is tied by an exact-string correspondence with a float-faithful mirror '
+        '(Model/NumFmtFloat.lean: Lean IEEE Float *, pow, log10 from the same libm, correctly rounded int->float, round-half-even, %f) on EVERY '
+        'generated case; the exact model is compared only where no float rounding can interfere (not within 1e-9 of a power of ten, round() '
+        'argument not within max(1e-9, q*1e-14) of a tie, at most 13 digits)',
+        'oracle for the uncertainty notation: |printed value - x| <= 10^q/2 + 2*slack*|x|, printed value within slack*|x| of a multiple of 10^q, '
+        'same for the uncertainty; slack = 2^-50 relative (2^-48 after a unit conversion by quantities); q from the decade of |xe| (either '
+        'neighbouring decade accepted within 2^-40 of a power of ten); run on all cases incl. near-ties',
+        'unit texts (latex_of_unit, unicode_of_unit, html_of_unit, dimensionality printers), to_unitless(number, unit) and the reaction text without '
+        'parameter are taken from the real call and passed to the model as opaque values',
         'roman: non-negative ints only; -0.0, inf, nan are not sent',
+    )
+    clauses_without_theorem = (
+        "CPython's '%.Ng' % x equals the modelled fmtG (exact-string correspondence on every run; the theorems are about fmtG)",
+        'value(uncertainty) notation of the REAL code: float log10, x*10**k, round and %f are not modelled in the proved (exact) model; '
+        'uncert_denotes/uncert_digits/uncert_shortest/uncert_layouts_denote hold for exact arithmetic only.  For the real code the clause '
+        '"value rounded at the uncertainty\'s last kept digit, uncertainty to the requested digits, shorter layout" is decided by the oracle '
+        '(with the stated float slack of 2^-50 relative) and by the exact-string correspondence with the float-faithful mirror',
+        'unit handling of _number_to_X: unit_of(number), to_unitless(number, unit), rescaling of an explicit or carried (UncertainQuantity) '
+        'uncertainty to the requested unit, and the unit text itself (compound units are opaque strings in the model): oracle reads value and '
+        'uncertainty back in the printed unit and compares with the given quantity; correspondence',
+        'string-level reading of the LaTeX / unicode / HTML mark-up (theorems give the structure: significand text, integer exponent, fixed '
+        'templates; the mark-up is read back by the oracle only)',
+        'fmt given as a callable; numbers carrying .uncertainty other than quantities.UncertainQuantity; -0.0, inf, nan',
+        'Reaction printing: the reaction text before the parameter, dimensionality printers, parameters that are rate-expression objects with their '
+        'own string method (only quantity / float / int / str / None parameters are exercised)',
+        'roman for negative ints (Python floor-division behaviour) is outside the model',
     )
     anchors = (('chempy/printing/numbers.py', 'roman'), ('chempy/printing/numbers.py', '_float_str_w_uncert'),
                ('chempy/printing/numbers.py', '_number_to_X'), ('chempy/printing/numbers.py', '_latex_pow_10'),
@@ -300,27 +379,56 @@ class C20(Property):
         return rng.randint(11, 17)
 
     def _uncert(self, rng):
-        """(x, xe, p) inside the modelled region"""
+        """(x, xe, p): uncertainty 1e-8 .. 0.5 relative (plus specials and a wild stream).  Nothing is excluded: the float-faithful
+        mirror is compared on every case, the exact model additionally where `uncert_modelled` holds, the oracle (with float slack) always."""
         for _ in range(200):
             x = self._float(rng)
             p = rng.choice([1, 1, 2, 2, 2, 3, 4, 5, 6])
             r = rng.random()
-            if r < 0.7:
+            if r < 0.55:
                 rel = 10.0 ** rng.uniform(-8, math.log10(0.5))
                 xe = abs(x) * rel
                 if rng.random() < 0.5:
                     xe = float('%.*g' % (rng.randint(1, 4), xe))
+            elif r < 0.75:
+                xe = float(rng.choice([1, 2, 3, 5, 9.6, 9.96, 0.95, 2.9, 3.49, 1.5, 0.35, 7.455, 4.742, 9.5, 9.95, 0.1, 10.0])) \
+                    * 10.0 ** (math.floor(math.log10(abs(x))) - rng.randint(1, 7))
             elif r < 0.95:
-                xe = float(rng.choice([1, 2, 3, 5, 9.6, 9.96, 0.95, 2.9, 3.49, 1.5])) * 10.0 ** (math.floor(math.log10(abs(x))) - rng.randint(1, 7))
+                x, xe, p = self._near_tie(rng)
             else:
                 xe = abs(self._float(rng))
-            if not (math.isfinite(xe) and xe != 0):
+            if not (math.isfinite(xe) and xe != 0 and math.isfinite(x) and x != 0):
                 continue
             if -(ilog10(abs(F(xe))) - p + 1) >= 309:
-                continue                                   # OverflowError region: kept out of the random stream (see notes, corpus)
-            if uncert_modelled(x, xe, p):
-                return x, xe, p
+                continue                                   # OverflowError region: known finding, kept out of the random stream (corpus)
+            return x, xe, p
         return 3.1416, 0.029, 1
+
+    def _near_tie(self, rng):
+        """decimal literals whose last digit is a 5 exactly one place below the uncertainty's last kept digit (2.675 +- 0.01), i.e. the
+        argument of round() is within an ulp of a half-integer; also values hugging a power of ten (float log10 boundary)"""
+        r = rng.random()
+        if r < 0.7:
+            d = rng.randint(1, 12)                                   # digits kept
+            k = rng.randint(10 ** (d - 1), 10 ** d - 1)
+            e = rng.randint(-30, 30) if rng.random() < 0.8 else rng.randint(-280, 280)
+            x = float('%d5e%d' % (k, e - d))                         # k.5 units of the last kept digit
+            p = rng.randint(1, 4)
+            lead = rng.choice([1, 2, 4.742, 7.455, 3, 9.6, 1.5])
+            xe = float('%re%d' % (lead, e + p - 1))                  # last kept digit of xe = 10^e
+            return (-x if rng.random() < 0.3 else x), xe, p
+        if r < 0.85:                                                 # the uncertainty itself on a decimal tie
+            p = rng.randint(1, 4)
+            k = rng.randint(10 ** (p - 1), 10 ** p - 1)
+            e = rng.randint(-20, 20)
+            xe = float('%d5e%d' % (k, e - 1))
+            x = float('%r' % (rng.uniform(1, 9.99) * 10.0 ** (e + p + rng.randint(0, 6))))
+            return x, xe, p
+        base = 10.0 ** rng.randint(-250, 250)                        # hugging a power of ten
+        x = rng.choice([math.nextafter(base, 0), base, math.nextafter(base, math.inf), base * (1 - 2.0 ** -rng.randint(30, 52))])
+        if rng.random() < 0.5:
+            return x * rng.choice([1.0, 3.7, 123.4]), x / 10 ** rng.randint(1, 5), rng.randint(1, 3)
+        return x, abs(x) * 10.0 ** -rng.randint(1, 6) * rng.choice([1.0, 2.9]), rng.randint(1, 3)
 
     def generate(self, rng, n, tier):
         cases = []
@@ -333,12 +441,28 @@ class C20(Property):
             for p in (1, 3, 4, 5, 6):
                 cases.append({'op': 'fmt_g', 'p': p, 'xf': float(x).hex()})
                 cases.append({'op': 'number_to_x', 'fmt': FMTS[(p + int(abs(x))) % 3], 'p': p, 'xf': float(x).hex(), 'unit': None})
+        # the reviewer's float near-ties (real code and exact model differ; float mirror + oracle-with-slack run on them)
+        for x, xe, p in ((2.675, 0.01, 1), (6.82025e25, 4.742e24, 4), (-8.349030831480901, 0.0007455, 3), (1.005, 0.01, 1),
+                         (0.125, 0.01, 1), (2.5, 1.0, 1), (1.15, 0.1, 1), (1234.5, 1.0, 1), (999.9999999999999, 1.0, 1),
+                         (1e-5, 1e-7, 1), (1e23, 1e21, 2), (1.2345678901234567e17, 150.0, 2), (0.35, 0.035, 1)):
+            cases.append({'op': 'float_str_w_uncert', 'xf': float(x).hex(), 'xef': float(xe).hex(), 'p': p})
+            cases.append({'op': 'number_to_x_uncert', 'fmt': FMTS[p % 3], 'p': p, 'xf': float(x).hex(), 'xef': float(xe).hex(), 'unit': None})
+        # uncertainty travelling with the number (quantities.UncertainQuantity) and/or an explicit `unit=` of another scale
+        for own, to, _sc in CONVERSIONS:
+            for fmt in FMTS:
+                x = float('%.5g' % (rng.uniform(1, 9.99) * 10.0 ** rng.randint(-9, 9)))
+                xe = float('%.2g' % (abs(x) * 10.0 ** rng.uniform(-5, -0.5)))
+                for carry in (True, False):
+                    cases.append({'op': 'number_to_x_uncert', 'fmt': fmt, 'p': rng.choice([None, 1, 2, 3]), 'xf': x.hex(), 'xef': xe.hex(),
+                                  'unit': own, 'unit_to': to, 'carry': carry})
+        cases.append({'op': 'number_to_x_uncert', 'fmt': 'unicode', 'p': 1, 'xf': (3.1416).hex(), 'xef': (0.029).hex(),
+                      'unit': [['metre', 1]], 'unit_to': [['cm', 1]], 'carry': True})
         # uncertainties whose leading digits round up to a power of ten (9.6 -> 10, 9.96 -> 10.0, 99.95 -> 100.0 ...)
         for lead, p in ((9.6, 1), (9.96, 2), (9.996, 3), (9.51, 1), (9.951, 2), (99.6, 2), (9.9996, 4), (9.7, 1)):
             for k in (-7, -3, 0, 2, 6, 11):
                 x = float('%r' % (rng.choice([1.2345678, 3.14159, 9.87654, 5.5, 1.0, 2.5]) * 10.0 ** (k + rng.randint(2, 5))))
                 xe = float('%re%d' % (lead, k))
-                if uncert_modelled(x, xe, p):
+                if True:
                     cases.append({'op': 'float_str_w_uncert', 'xf': x.hex(), 'xef': xe.hex(), 'p': p})
                     cases.append({'op': 'number_to_x_uncert', 'fmt': rng.choice(FMTS), 'p': p, 'xf': (-x if rng.random() < 0.3 else x).hex(),
                                   'xef': xe.hex(), 'unit': rng.choice([None, rng.choice(UNITS)])})
@@ -347,7 +471,7 @@ class C20(Property):
             for j, lead, p in ((2, 3.0, 1), (3, 2.9, 2), (4, 1.5, 2), (5, 4.2, 1), (3, 9.6, 1)):
                 x, xe = float('1e%d' % k), float('%re%d' % (lead, k - j))
                 for xx in (x, -x, float('%r' % (x * (1 + 10.0 ** -(j + 3))))):
-                    if uncert_modelled(xx, xe, p):
+                    if True:
                         cases.append({'op': 'float_str_w_uncert', 'xf': xx.hex(), 'xef': xe.hex(), 'p': p})
                         for fmt in FMTS:
                             cases.append({'op': 'number_to_x_uncert', 'fmt': fmt, 'p': p, 'xf': xx.hex(), 'xef': xe.hex(),
@@ -364,9 +488,15 @@ class C20(Property):
                 cases.append({'op': 'float_str_w_uncert', 'xf': x.hex(), 'xef': xe.hex(), 'p': p})
             elif r < 0.8:
                 x, xe, p = self._uncert(rng)
-                dflt = rng.random() < 0.3 and uncert_modelled(x, xe, 2)
-                cases.append({'op': 'number_to_x_uncert', 'fmt': rng.choice(FMTS), 'p': None if dflt else p, 'xf': x.hex(), 'xef': xe.hex(),
-                              'unit': rng.choice([None, rng.choice(UNITS)])})
+                dflt = rng.random() < 0.3
+                c = {'op': 'number_to_x_uncert', 'fmt': rng.choice(FMTS), 'p': None if dflt else p, 'xf': x.hex(), 'xef': xe.hex(),
+                     'unit': rng.choice([None, rng.choice(UNITS)])}
+                if rng.random() < 0.4 and 1e-290 < abs(x) < 1e290 and abs(xe) > 1e-290:
+                    own, to, _sc = rng.choice(CONVERSIONS)
+                    c.update({'unit': own, 'unit_to': to, 'carry': rng.random() < 0.6})
+                if dflt and -(ilog10(abs(F(xe))) - 2 + 1) >= 305:
+                    c['p'] = p
+                cases.append(c)
             elif r < 0.87:
                 cases.append({'op': 'roman', 'n': rng.choice([rng.randint(0, 5000), rng.randint(1, 3999), rng.randint(0, 10 ** rng.randint(1, 5))])})
             elif r < 0.97:
@@ -428,22 +558,25 @@ class C20(Property):
             return dict(c, x=ratio(fx(c['xf'])))
         if op in ('number_to_x', 'number_to_x_uncert'):
             from chempy.units import to_unitless
-            x = fx(c['xf'])
-            m = dict(c)
-            if c['unit'] is None:
-                m['x'] = ratio(x)
-                if 'xef' in c:
-                    m['xe'] = ratio(fx(c['xef']))
+            number, unc, _to, printed = self._x_args(c)
+            m = dict(c, case=c)
+            if printed is None:
+                mag, um = number, unc
             else:
-                u = make_unit(c['unit'])
-                m['x'] = ratio(float(to_unitless(x * u, u)))
-                if 'xef' in c:
-                    m['xe'] = ratio(float(to_unitless(fx(c['xef']) * u, u)))
-                m['unit'] = self._unit_text(c['fmt'], u)
-                m['unit_spec'] = c['unit']
+                mag = float(to_unitless(number, printed))
+                uq = number.uncertainty if c.get('carry') else unc
+                um = float(to_unitless(uq, printed)) if uq is not None else None
+                m['unit'] = self._unit_text(c['fmt'], printed)
+            m['x'] = ratio(mag)
+            if um is not None:
+                m['xe'] = ratio(um)
+                m['xb'], m['xeb'] = bits(mag), bits(um)
+                m['mode'] = 'both'
+                m['exact'] = uncert_modelled(mag, um, 2 if c['p'] is None else c['p'])
             return m
         if op == 'float_str_w_uncert':
-            return dict(c, x=ratio(fx(c['xf'])), xe=ratio(fx(c['xef'])))
+            x, xe = fx(c['xf']), fx(c['xef'])
+            return dict(c, x=ratio(x), xe=ratio(xe), xb=bits(x), xeb=bits(xe), mode='both', exact=uncert_modelled(x, xe, c['p']))
         if op == 'reaction_line':
             rxn, subst = self._rxn(c)
             m = dict(c)
@@ -473,13 +606,8 @@ class C20(Property):
                 return ('%%.%dg' % m['p']) % fx(m['xf'])
             if op in ('number_to_x', 'number_to_x_uncert'):
                 f = getattr(N, 'number_to_scientific_' + m['fmt'])
-                x = fx(m['xf'])
-                xe = fx(m['xef']) if 'xef' in m else None
-                if m.get('unit_spec') is not None:
-                    u = make_unit(m['unit_spec'])
-                    x = x * u
-                    xe = xe * u if xe is not None else None
-                return f(x, xe, None, m['p'])
+                number, unc, to, _printed = self._x_args(m['case'])
+                return f(number, unc, to, m['p'])
             if op == 'float_str_w_uncert':
                 return N._float_str_w_uncert(fx(m['xf']), fx(m['xef']), m['p'])
             if op == 'roman':
@@ -495,7 +623,25 @@ class C20(Property):
         return '!unknown-op'
 
     def same(self, m, io, mo):
+        if m.get('mode') == 'both':
+            # driver prints  <exact ℚ model> U+001F <float-faithful mirror>.  The mirror must equal the real output on EVERY case;
+            # the exact model (the object of the theorems) must equal it wherever no float rounding can interfere (`uncert_modelled`).
+            parts = mo.split('\x1f')
+            return len(parts) == 2 and parts[1] == io and (parts[0] == io or not m.get('exact'))
         return io == mo
+
+    def _x_args(self, c):
+        """(number, uncertainty argument, unit argument, unit the text is printed in | None) of the real call for a case"""
+        x = fx(c['xf'])
+        xe = fx(c['xef']) if 'xef' in c else None
+        if c.get('unit') is None:
+            return x, xe, None, None
+        own = make_unit(c['unit'])
+        to = make_unit(c['unit_to']) if c.get('unit_to') else None
+        if c.get('carry'):
+            import quantities as pq
+            return pq.UncertainQuantity(x, own, xe), None, to, (to if to is not None else own)
+        return x * own, (xe * own if xe is not None else None), to, (to if to is not None else own)
 
     # ---- the property on the real code ---------------------------------------------------------
     def oracle(self, c):
@@ -503,7 +649,10 @@ class C20(Property):
         op = c['op']
         if op == 'roman':
             n = c['n']
-            s = N.roman(n)
+            try:
+                s = N.roman(n)
+            except Exception as ex:
+                return 'roman(%d) raised %s' % (n, exc_name(ex))
             if any(ch not in 'MDCLXVI' for ch in s):
                 return 'roman(%d) = %r has a non-roman character' % (n, s)
             if read_roman(s) != n:
@@ -536,33 +685,40 @@ class C20(Property):
                 return 'significand exactly 1 is printed in %r' % text
             return None
         if op in ('number_to_x', 'number_to_x_uncert'):
-            from chempy.units import to_unitless
             f = getattr(N, 'number_to_scientific_' + c['fmt'])
             x = fx(c['xf'])
             xe = fx(c['xef']) if 'xef' in c else None
-            suffix = ''
-            num, unc = x, xe
-            if xe is not None and ilog10(abs(F(x))) < ilog10(abs(F(xe))) - (2 if c['p'] is None else c['p']) + 1:
+            number, unc, to, printed = self._x_args(c)
+            scale, slack = F(1), SLACK
+            if c.get('unit_to'):
+                scale = CONV_SCALE[json.dumps([c['unit'], c['unit_to']])]
+                slack = SLACK_UNIT
+            X = F(x) * scale                           # the given value / uncertainty in the unit the text is printed in (exact)
+            XE = F(xe) * scale if xe is not None else None
+            p_unc = 2 if c['p'] is None else c['p']
+            if xe is not None and min(decade_candidates(X)) < max(decade_candidates(XE)) - p_unc + 1:
                 return None            # value below the uncertainty's last digit: outside the property (code raises ValueError)
-            if c['unit'] is not None:
-                u = make_unit(c['unit'])
-                num = x * u
-                unc = xe * u if xe is not None else None
-                suffix = ('\\,' if c['fmt'] == 'latex' else ' ') + self._unit_text(c['fmt'], u)
+            if xe is not None and ilog10(abs(X)) - (ilog10(abs(XE)) - p_unc + 1) > 300:
+                return None            # more than 300 digits requested (relative uncertainty < 1e-290): far outside the property's domain
+            suffix = ''
+            if printed is not None:
+                suffix = ('\\,' if c['fmt'] == 'latex' else ' ') + self._unit_text(c['fmt'], printed)
             try:
-                text = f(num, unc, None, c['p'])
+                text = f(number, unc, to, c['p'])
             except Exception as ex:
-                return 'number_to_scientific_%s(%r, %r, fmt=%r) raised %s' % (c['fmt'], x, xe, c['p'], exc_name(ex))
+                return 'number_to_scientific_%s(%r, %r, unit=%r, fmt=%r) raised %s' % (c['fmt'], number, unc, c.get('unit_to'), c['p'], exc_name(ex))
             if xe is None:
                 p = 5 if c['p'] is None else max(c['p'], 1)
                 return check_number_text(c['fmt'], text, x, p, suffix)
-            return check_uncert_text(c['fmt'], text, x, xe, 2 if c['p'] is None else c['p'], suffix)
+            return check_uncert_text(c['fmt'], text, X, XE, p_unc, suffix, slack=slack)
         if op == 'float_str_w_uncert':
             x, xe, p = fx(c['xf']), fx(c['xef']), c['p']
             if x == 0 or xe == 0:
                 return None
-            if ilog10(abs(F(x))) < ilog10(abs(F(xe))) - p + 1:
+            if min(decade_candidates(F(x))) < max(decade_candidates(F(xe))) - p + 1:
                 return None            # value below the uncertainty's last digit: outside the property (code raises ValueError)
+            if ilog10(abs(F(x))) - (ilog10(abs(F(xe))) - p + 1) > 300:
+                return None            # more than 300 digits requested: far outside the property's domain
             try:
                 text = N._float_str_w_uncert(x, xe, p)
             except Exception as ex:
